@@ -100,6 +100,7 @@ type Opt struct {
 	Visitors          []v1.VisitorConfigurer
 	ServerDownAtStart bool
 	NoPoolRequests    bool
+	LoginFailExit     bool // frpc's default: give up when the FIRST login fails (later logins are retried for ever)
 }
 
 func (w *World) ev(kind, name string, sess int) {
@@ -123,7 +124,7 @@ func New(x *vs.Exec, o Opt) *World {
 	cfg.Transport.HeartbeatInterval = o.HeartbeatInterval
 	cfg.Transport.HeartbeatTimeout = o.HeartbeatTimeout
 	cfg.Transport.PoolCount = o.PoolCount
-	cfg.LoginFailExit = lo.ToPtr(false)
+	cfg.LoginFailExit = lo.ToPtr(o.LoginFailExit)
 	cfg.Complete()
 	w.Cfg = cfg
 	for _, p := range o.Proxies {
